@@ -34,3 +34,8 @@ Definition covered (fuel : nat) (par : parents) (from : N) (b : rb) : bool :=
   | Some l => forallb (fun n => existsb (N.eqb n) (r_scope b)) l
   | None => false
   end.
+
+(* renamer.reservation_scope(namespace, binding): the owner, and every namespace walked from the site of each reference
+   (`node.namespace`, then its parent, ...) until the owner is reached *)
+Definition rscope (fuel : nat) (par : parents) (owner : N) (sites : list N) : list N :=
+  owner :: flat_map (fun s => match chain fuel par s owner with Some l => l | None => [] end) sites.
